@@ -23,7 +23,9 @@ from ..tlaval import iter_dump_states
 
 PID = "C06"
 INVS = ["ProvenanceOK", "OutputOK", "ShapeOK", "TransposeOK", "RepeatOK"]
-SKIP_ARGS = {"dealiasing_fraction", "circle_radius"}     # static configuration (integer cutoffs / contour), not PDE coefficients
+SKIP_ARGS = set()      # every float constructor argument is swept, the numerical configuration (dealiasing_fraction, circle_radius) included
+# values used for arguments whose interesting points are not multiples of the default
+SPECIAL_VALUES = {"dealiasing_fraction": (2 / 3, 1.0, 0.5), "circle_radius": (1.0, 1.5, 0.75)}
 RTOL = 1e-9
 
 
@@ -232,6 +234,8 @@ def run(tier: str, seed: int) -> int:
             for prog, shape, imap in chosen:
                 B = prog["B"]
                 vals = np.asarray([base * (1.0 + 0.25 * b) for b in range(B)])
+                if aname in SPECIAL_VALUES:
+                    vals = np.asarray(SPECIAL_VALUES[aname][:B])
 
                 def make_p(x, name=name, D=D, N=N, mk=mk, aname=aname):
                     if aname == "dt":
@@ -266,6 +270,46 @@ def run(tier: str, seed: int) -> int:
                 worst = max(float(np.max(np.abs(got[idx] - ref[bt]))) for idx, bt in imap.items())
                 if not worst <= RTOL * scale:
                     run_.violation(dict(key, mode="value"), {"prog": prog, "max_abs_diff": worst, "scale": scale, "values": vals.tolist()})
+    # ---------------------------------------------------------------- (B') the wrapper steppers over batches of constructor parameters
+    for wname, inner, arg, base in (("RepeatedStepper", "Burgers", "diffusivity", 0.05), ("RepeatedStepper", "Diffusion", "diffusivity", 0.1),
+                                    ("RepeatedStepper", "KuramotoSivashinsky", "second_order_scale", 1.0)):
+        D, N = 1, 16
+        vp_progs = [p for p in progs if p[0]["vp"]]
+        picks = [vp_progs[i] for i in rng.permutation(len(vp_progs))[:3 if tier == "quick" else 12]]
+        for prog, shape, imap in picks:
+            B = prog["B"]
+            vals = np.asarray([base * (1.0 + 0.5 * b) for b in range(B)])
+
+            def make_w(x, inner=inner, arg=arg):
+                return ex.RepeatedStepper(registry.make(inner, D, N, L=2.0, dt=0.02, **{arg: x}), 3)
+            C = make_w(float(vals[0])).num_channels
+            U = rng.standard_normal((B, C) + (N,) * D) * 0.3
+            key = {"kind": "parameter-sweep", "cls": f"{wname}({inner})", "symbol": arg, "what": f"loop={prog['loop']},vm={prog['vm']}"}
+            run_.case(("wrapper-sweep", wname, inner, repr(sorted(prog.items()))))
+            ref = {}
+            for b in range(1, B + 1):
+                sb = make_w(float(vals[b - 1]))
+                u = jnp.asarray(U[b - 1])
+                ref[(b, 0)] = np.asarray(u)
+                for t in range(1, prog["n"] + 1):
+                    u = sb(u)
+                    ref[(b, t)] = np.asarray(u)
+            try:
+                got = np.asarray(build_program(eqx, jax, ex, prog, make_w, jnp.asarray(vals), None)(jnp.asarray(U)))
+                # a batch of wrappers assembled leaf by leaf from eagerly built members must behave like its members
+                members = [make_w(float(v)) for v in vals]
+                stacked = jax.tree_util.tree_map(lambda *xs: jnp.stack(xs) if eqx.is_array(xs[0]) else xs[0], *members)
+                got_st = np.asarray(eqx.filter_vmap(lambda s, u: s(u))(stacked, jnp.asarray(U)))
+            except Exception as e:  # noqa: BLE001
+                run_.violation(dict(key, mode="raised"), {"prog": prog, "exception": f"{type(e).__name__}: {str(e)[:300]}"})
+                continue
+            scale = max(1.0, max(float(np.max(np.abs(v))) for v in ref.values()))
+            worst = max(float(np.max(np.abs(got[idx] - ref[bt]))) for idx, bt in imap.items())
+            worst_st = max(float(np.max(np.abs(got_st[b - 1] - np.asarray(members[b - 1](jnp.asarray(U[b - 1])))))) for b in range(1, B + 1))
+            if got.shape != tuple(shape) + (C,) + (N,) * D or not worst <= RTOL * scale:
+                run_.violation(dict(key, mode="value"), {"prog": prog, "max_abs_diff": worst, "scale": scale})
+            if not worst_st <= RTOL * scale:
+                run_.violation(dict(key, mode="stacked-members"), {"max_abs_diff": worst_st, "values": vals.tolist()})
     # ---------------------------------------------------------------- (C) construction histories on cold grid sizes
     fams = ["Burgers", "Diffusion", "KuramotoSivashinsky", "GeneralConvectionStepper", "FisherKPP", "KortewegDeVries", "NavierStokesVorticity",
             "NormalizedLinearStepper", "GrayScott", "Wave"]
